@@ -100,6 +100,8 @@ func genClosure(thorough bool) Gen {
 			{"fault-xpcall", false, func() []Stat { return []Stat{Local1("bad", Bin("+", Name("nilv"), Num(1)))} }, "xpcall"},
 			{"faultidx-xpcall", false, func() []Stat { return []Stat{Local1("bad", Dot(Name("nilv"), "f"))} }, "xpcall"},
 			{"hosterr-pcall", false, func() []Stat { return []Stat{CallS(Name("setmetatable"), Num(1), Num(2))} }, "pcall"},
+			{"error-xpcall-handler-fails", false, func() []Stat { return []Stat{CallS(Name("error"), Str("boom"))} }, "xpcall-herr"},
+			{"fault-xpcall-handler-fails", false, func() []Stat { return []Stat{Local1("bad", Bin("+", Name("nilv"), Num(1)))} }, "xpcall-herr"},
 			{"yield-abandon", false, func() []Stat { return []Stat{CallS(Dot(Name("coroutine"), "yield"), Str("y"))} }, "co-abandon"},
 			{"yield-resume", false, func() []Stat { return []Stat{CallS(Dot(Name("coroutine"), "yield"), Str("y"))} }, "co-resume"},
 			{"co-error", false, func() []Stat { return []Stat{CallS(Name("error"), Str("boom"))} }, "co-error"},
@@ -327,6 +329,10 @@ func genClosure(thorough bool) Gen {
 								st = append(st, Emit(Str("site"), CallN("pcall", Name("site"), Str("P"), Str("Q"))), CallS(Name("ucheck")))
 							case "xpcall":
 								st = append(st, Emit(Str("site"), CallN("xpcall", Func(nil, false, Return(CallN("site", Str("P"), Str("Q")))), handler())), CallS(Name("ucheck")))
+							case "xpcall-herr":
+								// the message handler itself raises: only the failure flag is defined
+								herr := Func(names("e"), false, Emit(Str("handler"), CallN("type", Name("e"))), Local1("hb", Bin("+", Name("nilv"), Num(1))), Return(Str("unreached")))
+								st = append(st, Emit(Str("site"), Paren(CallN("xpcall", Func(nil, false, Return(CallN("site", Str("P"), Str("Q")))), herr))), CallS(Name("ucheck")))
 							case "co-abandon", "co-error", "co-return", "co-resume":
 								st = append(st, Local1("co", CallN("coroutine.create", Name("site"))))
 								st = append(st, Emit(Str("resume"), CallN("coroutine.resume", Name("co"), Str("P"), Str("Q"))), CallS(Name("ucheck")), Emit(Str("status"), CallN("coroutine.status", Name("co"))))
